@@ -106,14 +106,18 @@ def tables():
                                   "ufl_free_indices": const((9401,), (9402,)),
                                   "ufl_index_dimensions": const((2,), (3,))},
                            lambda v: Zero(v["ufl_shape"], v["ufl_free_indices"], v["ufl_index_dimensions"]))
-    T["IntValue"] = ClassTable(IntValue, {"_value": const(150, 151, 3, -3, 10 ** 20)}, lambda v: IntValue(v["_value"]))
+    import numpy as np
+    T["IntValue"] = ClassTable(IntValue, {"_value": const(150, 151, 3, -3, 10 ** 20)}, lambda v: IntValue(v["_value"]),
+                               presentations={"_value": const(np.int64(150), np.int32(150), np.uint8(150))})
     import sys
     T["FloatValue"] = ClassTable(FloatValue, {"_value": const(2.5, 3.5, 1e-9, 0.1, 0.30000000000000004, 0.3, 1.1 * 1.1,
                                                               2 ** 0.5 * 1e10, sys.float_info.max, 5e-324, 1 / 3,
                                                               -2.675, 1e22, 123456789.12345679)},
-                                 lambda v: FloatValue(v["_value"]))
+                                 lambda v: FloatValue(v["_value"]),
+                                 presentations={"_value": const(np.float64(2.5), np.float32(2.5))})
     T["ComplexValue"] = ClassTable(ComplexValue, {"_value": const(1 + 2j, 1 + 3j, 2j)},
-                                   lambda v: ComplexValue(v["_value"]))
+                                   lambda v: ComplexValue(v["_value"]),
+                                   presentations={"_value": const(np.complex128(1 + 2j), np.complex64(1 + 2j))})
     T["Identity"] = ClassTable(Identity, {"_dim": const(2, 3)}, lambda v: Identity(v["_dim"]))
     T["PermutationSymbol"] = ClassTable(PermutationSymbol, {"_dim": const(2, 3)},
                                         lambda v: PermutationSymbol(v["_dim"]))
@@ -381,8 +385,52 @@ def eval_namespace():
     return ns
 
 
-def roundtrip(o, eq, ns):
-    """-> list of problems: eval(repr(o)) == o and pickle.loads(pickle.dumps(o)) == o"""
+class Bystanders:
+    """Objects that exist before a round trip and must be exactly as they were afterwards: the flyweights that
+    __new__ hands out (Zero of each shape, small IntValues, fixed indices / multi-indices) and expressions
+    containing them."""
+
+    def __init__(self):
+        m = Mesh(FE(triangle, 1, (2,)), 9791)
+        V = FunctionSpace(m, FE(triangle, 1))
+        f = Coefficient(V, 9792)
+        w = Coefficient(FunctionSpace(m, FE(triangle, 1, (2,))), 9793)
+        objs = {"Zero()": Zero(), "Zero((2,))": Zero((2,)), "Zero((3,))": Zero((3,)), "Zero((2, 2))": Zero((2, 2)),
+                "IntValue(1)": IntValue(1), "IntValue(2)": IntValue(2), "IntValue(-1)": IntValue(-1),
+                "FixedIndex(0)": FixedIndex(0), "MultiIndex((FixedIndex(0),))": MultiIndex((FixedIndex(0),)),
+                "as_vector([f, 0])": ufl.as_vector([f, 0]), "conditional(f<1, 0, f)": ufl.conditional(ufl.lt(f, 1), 0, f),
+                "w[0]*2": w[0] * 2, "f**1 + 1": f + 1}
+        self.objs = objs
+        self.state = {k: self.fingerprint(o) for k, o in objs.items()}
+        self.reported = set()
+
+    @staticmethod
+    def fingerprint(o):
+        d = [repr(o)]
+        for a in ("ufl_shape", "ufl_free_indices", "ufl_index_dimensions"):
+            try:
+                d.append(getattr(o, a))
+            except Exception:    # noqa: BLE001
+                d.append(None)
+        try:
+            d.append(hash(o))
+        except Exception:    # noqa: BLE001
+            d.append(None)
+        return tuple(d)
+
+    def changed(self):
+        out = []
+        for k, o in self.objs.items():
+            now = self.fingerprint(o)
+            if now != self.state[k] and k not in self.reported:
+                self.reported.add(k)
+                out.append({"object": k, "before": str(self.state[k])[:300], "after": str(now)[:300]})
+        return out
+
+
+def roundtrip(o, eq, ns, bystanders=None):
+    """-> list of problems: eval(repr(o)) == o and pickle.loads(pickle.dumps(o)) == o, and no OTHER existing
+    object (the flyweights __new__ hands out, expressions containing them) changes"""
     probs = []
     try:
         r = eval(repr(o), dict(ns))
@@ -390,6 +438,10 @@ def roundtrip(o, eq, ns):
             probs.append({"what": "eval(repr(x)) is not equal to x", "repr": repr(o)[:600], "repr_back": repr(r)[:600]})
     except Exception as ex:
         probs.append({"what": "eval(repr(x)) raised " + type(ex).__name__ + ": " + str(ex)[:200], "repr": repr(o)[:600]})
+    if bystanders is not None:
+        for c in bystanders.changed():
+            probs.append({"what": "eval(repr(x)) changed another, already existing object", "repr": repr(o)[:600],
+                          "bystander": c})
     try:
         p = pickle.loads(pickle.dumps(o))
         if not eq(p, o) or repr(p) != repr(o):
@@ -397,6 +449,11 @@ def roundtrip(o, eq, ns):
     except Exception as ex:
         probs.append({"what": "pickle round trip raised " + type(ex).__name__ + ": " + str(ex)[:200],
                       "repr": repr(o)[:600]})
+    if bystanders is not None:
+        for c in bystanders.changed():
+            probs.append({"what": "pickle.loads(pickle.dumps(x)) changed another, already existing object (a shared "
+                                  "instance handed out by __new__ was overwritten by the pickled state)",
+                          "repr": repr(o)[:600], "bystander": c})
     return probs
 
 
@@ -639,3 +696,39 @@ def hash_collision_pairs(gen):
             except Exception:    # noqa: BLE001
                 continue
     return out
+
+
+def literal_presentation_pairs(gen):
+    """The same expression written with python literals and with numpy scalars (the way literals arrive from
+    user code that computes with numpy): the literal terminals are == (equal values), so the expressions must be
+    ==, with equal hash and repr."""
+    import numpy as np
+    f, g = gen.scal[0], gen.scal[1]
+    w = gen.vec[0]
+    lits = [(300, np.int64(300)), (7, np.int32(7)), (2.5, np.float64(2.5)), (0.1, np.float64(0.1)),
+            (1 + 2j, np.complex128(1 + 2j)), (1000, np.uint16(1000))]
+    templates = [("f*c", lambda c: f * c), ("c*f + g", lambda c: c * f + g), ("f**2/c", lambda c: f ** 2 / c),
+                 ("as_ufl(c)", lambda c: ufl.as_ufl(c)), ("sin(f)*c*w[0]", lambda c: ufl.sin(f) * c * w[0]),
+                 ("conditional(f<c, f, c)", lambda c: ufl.conditional(ufl.lt(f, c.real), f, c))]
+    out = []
+    for (py, npv) in lits:
+        for name, t in templates:
+            try:
+                a, b = t(py), t(npv)
+            except Exception:    # noqa: BLE001
+                continue
+            out.append(({"kind": "literal-presentation", "template": name, "python": repr(py), "numpy": repr(npv)}, a, b))
+    return out
+
+
+def roundtrip_extras(gen):
+    """Expressions whose round trip goes through the flyweight caches of __new__: zeros carrying free indices,
+    zeros of tensor shape, small and large integers, fixed multi-indices."""
+    f, w = gen.scal[0], gen.vec[0]
+    i, j = Index(9761), Index(9762)
+    ex = [("0*w[i]", 0 * w[i]), ("0*w[i]*w[j]", 0 * w[i] * w[j]), ("f + 0*w[i]*w[i]", f + 0 * (w[i] * w[i])),
+          ("as_vector([0*f, f])", ufl.as_vector([0 * f, f])), ("Zero((2,), (i,), (2,))", Zero((2,), (9761,), (2,))),
+          ("Zero((), (i, j), (2, 3))", Zero((), (9761, 9762), (2, 3))), ("w*0", w * 0), ("grad(w)*0", ufl.grad(w) * 0),
+          ("f*1 + 99", f + 99), ("f + 100", f + 100), ("w[1]", w[1]), ("outer(w, w)[0, 1]", ufl.outer(w, w)[0, 1]),
+          ("conditional(f<1, 0*w[i], w[i])", ufl.conditional(ufl.lt(f, 1), 0 * w[i], w[i]))]
+    return [({"kind": "roundtrip-extra", "expr": n}, e) for n, e in ex]
